@@ -178,7 +178,7 @@ pub fn encode_history(data: &[u8]) -> Option<EncHistory> {
         let x = (ch[1] as u32) << 24 | (ch[2] as u32) << 16 | (ch[1] as u32) << 8 | ch[2] as u32;
         text.push(crate::hist_enc::text_char(algo, src == Src::Utf16, ch[0], x));
     }
-    let mut h = EncHistory { enc, src, sink, repl, text, cuts: vec![], last_on_empty, caps, fill, align };
+    let mut h = EncHistory { enc, src, sink, repl, text, cuts: vec![], last_on_empty, caps, fill, align, undersized_ok: false };
     h.normalize();
     let n = h.text.len();
     h.cuts = cutb[..ncuts.min(4)].iter().map(|c| (*c as usize * (n + 1)) >> 8).collect();
